@@ -232,4 +232,4 @@ PROPS["C04"]["runs"].append(dict(kind="custom", fn=sanstage.miri_stage, bin="mon
 PROPS["C11"]["runs"].append(dict(kind="custom", fn=sanstage.miri_stage, bin="mon", sub="c11", config="miri", thorough_only=True,
                                  shards=16, scale=0.02, extra=["--max-len", "5"]))
 PROPS["C17"]["runs"].append(dict(kind="custom", fn=sanstage.tsan_stage, bin="mon_dbg", sub="c17", config="tsan", thorough_only=True,
-                                 shards=8, scale=0.17))
+                                 shards=8, scale=1.0))
